@@ -524,8 +524,15 @@ func (r *rewriter) rewriteCall(c *ast.CallExpr) {
 			return
 		}
 	}
-	// maps.Keys(m) / maps.Values / set.ToSlice()
-	if sel, ok := c.Fun.(*ast.SelectorExpr); ok {
+	// maps.Keys(m) / maps.Values / set.ToSlice()   (also with explicit instantiation: maps.Keys[M](m))
+	fun := c.Fun
+	switch ix := fun.(type) {
+	case *ast.IndexExpr:
+		fun = ix.X
+	case *ast.IndexListExpr:
+		fun = ix.X
+	}
+	if sel, ok := fun.(*ast.SelectorExpr); ok {
 		path := r.pkgNameOf(sel.X)
 		if (path == "golang.org/x/exp/maps" || path == "maps") && sel.Sel.Name == "Keys" {
 			r.insert(c.Pos(), "simrt.OrderKeys(", 5)
